@@ -10,6 +10,7 @@
    history has no further event the distinct result [RetMore] is returned (it is never a
    normal-looking answer; theorems say when it can and cannot occur). *)
 From Coq Require Import ZArith List Bool Arith.
+From LLRP Require Import Retry.NextWait.
 Import ListNotations.
 Open Scope Z_scope.
 
@@ -66,8 +67,6 @@ Fixpoint set_nth (i : nat) (x : err) (l : list err) : list err :=
   | _ :: t, O => x :: t
   | h :: t, S j => h :: set_nth j x t
   end.
-
-Definition two63 : Z := 9223372036854775808.
 
 (* func (e *FError) addErr(newErr error)
      if e.Attempts+1 > 0 { e.Attempts++ }       -- the +1 wraps at 2^63-1
@@ -140,3 +139,61 @@ Definition errs_seen (l : list outcome) : list err := flat_map err_of l.
 
 (* Others in the order FError.Error() lists them is not part of the property; the
    oracle prints the multiset (sorted by the driver). *)
+
+(* ---- the configuration layer: where the events of the deadline pre-check come from ----
+   RetryWithCtx receives the CONFIGURED ExpBackOff; it normalises BackOff/Max (NextWait.norm_base,
+   norm_max, inside [pause]) and asks nextWait(attempt) for the pause of every iteration:
+       wait := ebo.nextWait(attempt)
+       if hasDeadline && time.Now().Add(wait).After(deadline) { ... ErrWaitExceedsDeadline }
+   A timed history gives, per iteration, the jitter draw, the time left until the context's
+   deadline when the pre-check is made (None: the context has no deadline) and what happens if
+   the pre-check lets the wait start. *)
+Record config := mkCfg { c_backoff : Z; c_max : Z; c_jitter : bool }.
+
+Inductive wait_ev :=
+| WCtx (c : ctx_err)
+| WRun (o : outcome)
+| WRunCtxEnded (c : ctx_err) (o : outcome).
+
+Definition ev_step (e : wait_ev) : step :=
+  match e with WCtx c => StCtx c | WRun o => StRun o | WRunCtxEnded c o => StRunCtxEnded c o end.
+
+Record tstep := mkT { t_draw : Z; t_remaining : option Z; t_ev : wait_ev }.
+
+(* the pause requested at iteration [n] (attempt = n) from the configured values *)
+Definition pause_of (cfg : config) (n r : Z) : Z :=
+  pause (c_jitter cfg) (c_backoff cfg) (c_max cfg) n r.
+
+(* time.Now().Add(wait).After(deadline)  <=>  wait > deadline - now *)
+Definition exceeds (remaining : option Z) (w : Z) : bool :=
+  match remaining with Some d => d <? w | None => false end.
+
+Fixpoint to_steps (cfg : config) (n : Z) (ts : list tstep) : list step :=
+  match ts with
+  | [] => []
+  | t :: rest =>
+    (if exceeds (t_remaining t) (pause_of cfg n (t_draw t)) then StExceeds else ev_step (t_ev t))
+      :: to_steps cfg (n + 1) rest
+  end.
+
+(* the pauses the loop asks for, iteration by iteration *)
+Fixpoint pauses (cfg : config) (n : Z) (ts : list tstep) : list Z :=
+  match ts with
+  | [] => []
+  | t :: rest => pause_of cfg n (t_draw t) :: pauses cfg (n + 1) rest
+  end.
+
+Definition retry_run_cfg (cfg : config) (retries keep : Z) (pre : option ctx_err) (first : outcome)
+                         (ts : list tstep) : result :=
+  retry_run retries keep pre first (to_steps cfg 1 ts).
+
+(* an idealised clock for the correspondence runs: the deadline is [deadline] ns after the call
+   starts, f and the bookkeeping take no time, every wait lasts exactly the pause asked for *)
+Fixpoint sched (cfg : config) (deadline : option Z) (n elapsed : Z) (evs : list (Z * wait_ev))
+  : list tstep :=
+  match evs with
+  | [] => []
+  | (r, e) :: rest =>
+    mkT r (match deadline with Some d => Some (d - elapsed) | None => None end) e
+      :: sched cfg deadline (n + 1) (elapsed + pause_of cfg n r) rest
+  end.
